@@ -111,6 +111,27 @@ def run(ctx: Ctx) -> int:
     ok = "action._check_type_(value" in txt and "action.check_type(value" in txt and "action.type(" in txt and 'hasattr(action, "_check_type")' in txt.replace("'", '"')
     ctx.oblige("C05.a", ok, cvk, "_check_value_key dispatches to the action's own _check_type / check_type / type= callable" if ok else "_check_value_key no longer dispatches to all checker kinds", fn=cvk, construct="dispatcher arms")
 
+    # `choices` restricts the CONVERTED value on every channel.  argparse itself compares what it has at hand in
+    # _check_value - for actions that convert in __call__ (they define _check_type) that is the raw string; so the
+    # parser has to take that comparison over (override of _check_value that steps aside for such actions) and the
+    # shared entry Action._check_type_ has to compare after the conversion, as _check_value_key does for configs
+    apcls = ctx.repo.cls("_core:ArgumentParser")
+    ov = [m for m in apcls.body if isinstance(m, ast.FunctionDef) and m.name == "_check_value"]
+    steps_aside = bool(ov) and any(isinstance(n_, ast.If) and any(isinstance(c, ast.Call) and call_leaf(c) == "hasattr" and len(c.args) == 2 and const_str(c.args[1]) == "_check_type" for c in ast.walk(n_.test)) and any(isinstance(b, ast.Return) for b in n_.body) for n_ in ast.walk(ov[0])) if ov else False
+    cte = ctx.func("_common:Action._check_type_")
+    after_conv = any(isinstance(n_, ast.Compare) and isinstance(n_.ops[0], (ast.NotIn, ast.In)) and "choices" in ast.unparse(n_.comparators[0]) for n_ in ast.walk(cte))
+    cvk_ = ctx.func("_core:ArgumentParser._check_value_key")
+    cfg_side = any(isinstance(n_, ast.Compare) and isinstance(n_.ops[0], (ast.NotIn, ast.In)) and "choices" in ast.unparse(n_.comparators[0]) for n_ in ast.walk(cvk_))
+    ok = steps_aside and after_conv and cfg_side
+    ctx.oblige(
+        "C05.a",
+        ok,
+        ov[0] if ov else cte,
+        "`choices` is compared with the converted value on the command line (Action._check_type_) and on the config channels (_check_value_key); argparse's comparison of the raw string is switched off for converting actions" if ok else "`choices` is compared by argparse with the RAW command line string for actions that convert in __call__: `--n=1` for type=int, choices=[1, 2] is rejected on the command line while `n: 1` in a config is accepted",
+        fn=cte,
+        construct="choices compared after conversion on every channel",
+    )
+
     # ---------------- C05.b (taint) -------------------------------------------
     n_src = 0
     n_fix = 0
